@@ -41,6 +41,10 @@ class PyprojectWriter(DependencyWriter):
             tomlkit.dumps(original).split("\n"), tomlkit.dumps(pyproject).split("\n")
         )
 
+        if not added_line_nums:
+            # Nothing was added (e.g. poetry already lists the package)
+            return None
+
         if not dry_run:
             with open(self.path, "w", encoding="utf-8") as f:
                 tomlkit.dump(pyproject, f)
